@@ -1,6 +1,7 @@
 """C12: what every operation of the class Interval (include/libfive/eval/interval.hpp) does to the rounding
 mode, read from the source: for every control-flow path through every operation, the sequence of
   EvSave      `const int m = std::fegetround();`
+  EvSaveStale `static const int m = std::fegetround();`  (initialised at the FIRST call: some earlier caller's mode)
   EvRestore   `std::fesetround(m);`          (of the variable saved on this path)
   EvPrim n    a call of Boost's interval primitive n (boost::numeric::n, hull, the arithmetic operators
               on Boost intervals: "add" "sub" "mul" "div" "neg" "scale")
@@ -120,6 +121,8 @@ class Paths:
                 ev = self.ex(st[3])
                 if st[3][0] == "call" and st[3][1] == ("id", "std::fegetround"):
                     self.saved.add(st[2])
+                    if st[2] in getattr(self, "stale", ()):
+                        ev = [[("savestale",) if x == ("save",) else x for x in p_] for p_ in ev]
                 if st[1] == "I" or self.is_iv(st[3]):
                     self.ivars.add(st[2])
                 open_ = seq(open_, ev)
@@ -194,6 +197,8 @@ def coq_ev(e):
         return "EvSave"
     if e[0] == "restore":
         return "EvRestore"
+    if e[0] == "savestale":
+        return "EvSaveStale"
     return 'EvPrim "%s"' % e[1]
 
 
@@ -202,8 +207,11 @@ def generate(repo):
     src = g.preprocess(strip_comments(raw))
     src = re.sub(r"(?<![A-Za-z_0-9>:])::(\w+)", r"GLOBAL_\1", src)
     ops = []
+    stale = {}          # operation -> variables declared `static ... = std::fegetround()`: saved ONCE, at the first call
     for m in re.finditer(r"static\s+Interval\s+(\w+)\s*\(([^)]*)\)\s*\{", src):
-        ops.append((m.group(1), g.parse_stmts(g.body_at(src, m.end() - 1))))
+        body = g.body_at(src, m.end() - 1)
+        stale[m.group(1)] = set(re.findall(r"static\b[^;=]*?(\w+)\s*=\s*std\s*::\s*fegetround", body))
+        ops.append((m.group(1), g.parse_stmts(body)))
     for m in re.finditer(r"inline\s+Interval\s+operator\s*([-+*/])\s*\(([^)]*)\)\s*\{", src):
         ops.append(("operator" + BINNAME[m.group(1)], g.parse_stmts(g.body_at(src, m.end() - 1))))
     m = g.one(src, r"Interval\s+operator\s*-\s*\(\s*\)\s*const\s*\{", "operator-()")
@@ -216,7 +224,7 @@ def generate(repo):
              "Import ListNotations.",
              "Local Open Scope string_scope.",
              "",
-             "Inductive ev := EvSave | EvRestore | EvPrim (name : string).",
+             "Inductive ev := EvSave | EvSaveStale | EvRestore | EvPrim (name : string).",
              "",
              "(* operation, and one event list per control-flow path through it *)",
              "Definition interval_paths_gen : list (string * list (list ev)) := ["]
@@ -224,6 +232,7 @@ def generate(repo):
     npaths = 0
     for name, stmts in ops:
         P = Paths(name)
+        P.stale = stale.get(name, set())
         P.ivars.add("i")
         open_, done = P.run(stmts, [[]])
         if open_:
